@@ -5,6 +5,7 @@
   check.py replay <file>                  re-execute a replay file (exit 1 if it reproduces)
   check.py selftest [ID...]               determinism self-test
   check.py setup                          validate the environment
+  check.py fidelity [N]                   N workloads on REAL thread/process pools and managers vs reference
   check.py worker ...                     (internal)
 
 Exit codes: 0 held on everything explored (KNOWN-FINDING lines allowed); 1 VIOLATION;
@@ -261,6 +262,10 @@ def main(argv):
         from sim import selftest
 
         return selftest.main(argv[2:])
+    if cmd == "fidelity":
+        from sim import fidelity
+
+        return fidelity.main(argv[2:])
     if cmd in runner.ENGINES:
         tier = os.environ.get("VERIF_TIER", "quick")
         if "--tier" in argv:
